@@ -1,6 +1,539 @@
-//! C17 — stub (to be implemented).
+//! C17 — the binning scheme is sound and index files round-trip with unchanged query answers.
+//!
+//! Three sub-monitors (see the module docs):
+//!  (a) `binning`   — feature bin ∈ region bins for every intersecting (feature, region) pair; exhaustive for
+//!                    (min_shift, depth) ∈ {1,2,3}², sampled at (14,5), (12,6), (16,4), (14,6);
+//!  (b) `chunks`    — `merge_chunks` / `optimize_chunks` never uncover a retained chunk (point-set oracle),
+//!                    and `BinningIndex::query` covers every retained chunk of every overlapping bin;
+//!  (c) `roundtrip` — BAI, CSI, tabix, gzi, fai, crai write -> read: equal, or same header / metadata /
+//!                    counts / bins and the same answer to every probe query.
+
+mod binning;
+mod chunks;
+mod files;
+#[path = "../../c04/src/genfiles.rs"]
+mod genfiles;
+mod roundtrip;
+
+use noodles_bam as bam;
+use noodles_bcf as bcf;
+use noodles_cram as cram;
+use noodles_csi::{self as csi, binning_index::index::reference_sequence::index::{BinnedIndex, LinearIndex}};
+use noodles_fasta as fasta;
+use noodles_tabix as tabix;
+use noodles_vcf as vcf;
+use serde_json::{Value, json};
+use vcore::{CaseOut, Ctx, Report, Rng, guard, run_cases};
+
+use roundtrip as rt;
+
+#[derive(Clone, Debug)]
+enum Case {
+    BinExh { ms: u8, d: u8, lo: usize, hi: usize },
+    BinSample { ms: u8, d: u8, k: u64 },
+    ChunkExh { block: usize },
+    ChunkRand { k: u64 },
+    QueryCover { k: u64 },
+    Rt { kind: &'static str, src: &'static str, k: u64 },
+    Witness { name: &'static str },
+}
+
+fn case_json(c: &Case) -> Value {
+    match c {
+        Case::BinExh { ms, d, lo, hi } => json!({"sub": "binning-exhaustive", "min_shift": ms, "depth": d, "region_starts": [lo, hi]}),
+        Case::BinSample { ms, d, k } => json!({"sub": "binning-sampled", "min_shift": ms, "depth": d, "block": k}),
+        Case::ChunkExh { block } => json!({"sub": "chunks-exhaustive", "first_chunk_block": block}),
+        Case::ChunkRand { k } => json!({"sub": "chunks-random", "block": k}),
+        Case::QueryCover { k } => json!({"sub": "query-cover", "block": k}),
+        Case::Rt { kind, src, k } => json!({"sub": "roundtrip", "kind": kind, "source": src, "block": k}),
+        Case::Witness { name } => json!({"sub": "witness", "name": name}),
+    }
+}
+
+const EXH_GEOMETRIES: [(u8, u8); 9] = [(1, 1), (2, 1), (3, 1), (1, 2), (2, 2), (3, 2), (1, 3), (2, 3), (3, 3)];
+const SAMPLED_GEOMETRIES: [(u8, u8); 4] = [(14, 5), (12, 6), (16, 4), (14, 6)];
+const CSI_GEOMETRIES: [(u8, u8); 8] = [(14, 5), (14, 5), (12, 6), (16, 4), (14, 6), (10, 3), (4, 2), (1, 1)];
+
+fn exhaustive_geometries(ctx: &Ctx) -> Vec<(u8, u8)> {
+    let max_positions = ctx.budget("exh_max_positions", 4096, 4096) as usize;
+    EXH_GEOMETRIES.iter().copied().filter(|&(ms, d)| binning::positions(ms, d) <= max_positions).collect()
+}
+
+fn gen_cases(ctx: &Ctx) -> Vec<Case> {
+    let mut v = Vec::new();
+    // deterministic witnesses of the known findings first
+    for name in ["csi-indexer-loffset-rewrite", "fai-non-utf8-name", "crai-two-records"] {
+        v.push(Case::Witness { name });
+    }
+    for (ms, d) in exhaustive_geometries(ctx) {
+        let n = binning::positions(ms, d);
+        let step = if n <= 1024 { n } else { 64 };
+        let mut lo = 1;
+        while lo <= n {
+            v.push(Case::BinExh { ms, d, lo, hi: (lo + step).min(n + 1) });
+            lo += step;
+        }
+    }
+    for (ms, d) in SAMPLED_GEOMETRIES {
+        for k in 0..ctx.budget("sample_blocks", 10, 300) {
+            v.push(Case::BinSample { ms, d, k });
+        }
+    }
+    for block in 0..chunks::EXH_BLOCKS {
+        v.push(Case::ChunkExh { block });
+    }
+    for k in 0..ctx.budget("chunk_blocks", 8, 200) {
+        v.push(Case::ChunkRand { k });
+    }
+    for k in 0..ctx.budget("cover_blocks", 8, 200) {
+        v.push(Case::QueryCover { k });
+    }
+    let nb = ctx.budget("rt_blocks", 12, 250);
+    for kind in ["bai", "csi", "tabix"] {
+        for src in ["indexer", "arbitrary"] {
+            for k in 0..nb {
+                v.push(Case::Rt { kind, src, k });
+            }
+        }
+    }
+    for kind in ["gzi", "fai", "crai"] {
+        for k in 0..nb {
+            v.push(Case::Rt { kind, src: "arbitrary", k });
+        }
+    }
+    let nf = ctx.budget("fs_blocks", 4, 60);
+    for kind in ["bai", "csi", "tabix", "fai", "crai", "gzi"] {
+        for k in 0..nf {
+            v.push(Case::Rt { kind, src: "fs-index", k });
+        }
+    }
+    v
+}
+
+const RT_BATCH: usize = 25;
+
+fn run_rt(ctx: &Ctx, idx: u64, kind: &'static str, src: &'static str, k: u64, o: &mut CaseOut) {
+    let mut rng = Rng::new(ctx.seed, vcore::rng::fnv1a(format!("{kind}|{src}").as_bytes()), k);
+    let mut evals = 0u64;
+    let scratch = |name: &str| ctx.work.join(format!("c17-{idx}-{name}"));
+    match (kind, src) {
+        ("bai", "indexer") | ("bai", "arbitrary") => {
+            for j in 0..RT_BATCH {
+                let (ix, shape) = if src == "indexer" {
+                    let st = rt::gen_stream(&mut rng, 14, 5);
+                    match guard::catch(|| rt::drive::<LinearIndex>(&st, 14, 5, None)) {
+                        Ok(Ok(ix)) => (ix, st.shape),
+                        Ok(Err(e)) => {
+                            o.count(&format!("indexer_rejections[{e}]"), 1);
+                            continue;
+                        }
+                        Err(p) => {
+                            o.violation(format!("roundtrip:bai:indexer-panic:{}", p.sig), format!("Indexer panicked on a sorted stream: {}", p.message));
+                            continue;
+                        }
+                    }
+                } else {
+                    let nrefs = *rng.pick(&[0usize, 1, 2, 5]);
+                    (rt::arb_linear(&mut rng, None, nrefs), format!("arb|refs={nrefs}"))
+                };
+                let file = if j % 8 == 0 { Some(scratch("x.bai")) } else { None };
+                let back = rt::rt_bai(&ix, file.as_deref());
+                if let Some(jd) = rt::judge_binning("bai", src, &ix, back, &mut rng, o, None) {
+                    evals += 1;
+                    o.fps.push(rt::fp(kind, src, &shape, &format!("{}|{}", jd.equal, file.is_some())));
+                }
+            }
+        }
+        ("tabix", "indexer") | ("tabix", "arbitrary") => {
+            for j in 0..RT_BATCH {
+                let (ix, shape) = if src == "indexer" {
+                    let st = rt::gen_stream(&mut rng, 14, 5);
+                    let r = guard::catch(|| -> std::io::Result<tabix::Index> {
+                        let mut ixr = tabix::index::Indexer::default();
+                        let mut h = rt::arb_header(&mut rng.clone(), 0, false);
+                        *h.reference_sequence_names_mut() = Default::default();
+                        ixr.set_header(h);
+                        for &(r, s, e, _, (cs, ce)) in &st.recs {
+                            ixr.add_record(&format!("name{r}"), binning::pos(s), binning::pos(e), csi::binning_index::index::reference_sequence::bin::Chunk::new(binning::vp(cs), binning::vp(ce)))?;
+                        }
+                        Ok(ixr.build())
+                    });
+                    match r {
+                        Ok(Ok(ix)) => (ix, st.shape),
+                        Ok(Err(e)) => {
+                            o.count(&format!("indexer_rejections[{e}]"), 1);
+                            continue;
+                        }
+                        Err(p) => {
+                            o.violation(format!("roundtrip:tabix:indexer-panic:{}", p.sig), format!("tabix Indexer panicked: {}", p.message));
+                            continue;
+                        }
+                    }
+                } else {
+                    let nrefs = *rng.pick(&[0usize, 1, 2, 5]);
+                    let with_nul = rng.chance(1, 12) && nrefs > 0;
+                    let h = rt::arb_header(&mut rng, nrefs, with_nul);
+                    (rt::arb_linear(&mut rng, Some(h), nrefs), format!("arb|refs={nrefs}|nul={with_nul}"))
+                };
+                let file = if j % 8 == 0 { Some(scratch("x.tbi")) } else { None };
+                let back = rt::rt_tabix(&ix, file.as_deref());
+                if let Some(jd) = rt::judge_binning("tabix", src, &ix, back, &mut rng, o, None) {
+                    evals += 1;
+                    o.fps.push(rt::fp(kind, src, &shape, &format!("{}|{}", jd.equal, file.is_some())));
+                }
+            }
+        }
+        ("csi", "indexer") | ("csi", "arbitrary") => {
+            for j in 0..RT_BATCH {
+                let (ms, d) = *rng.pick(&CSI_GEOMETRIES);
+                let with_header = rng.chance(1, 3);
+                let (ix, shape) = if src == "indexer" {
+                    let st = rt::gen_stream(&mut rng, ms, d);
+                    let h = if with_header { Some(rt::arb_header(&mut rng, st.nrefs, false)) } else { None };
+                    match guard::catch(|| rt::drive::<BinnedIndex>(&st, ms, d, h)) {
+                        Ok(Ok(ix)) => (ix, format!("{}|{ms},{d}|h={with_header}", st.shape)),
+                        Ok(Err(e)) => {
+                            o.count(&format!("indexer_rejections[{e}]"), 1);
+                            continue;
+                        }
+                        Err(p) => {
+                            o.violation(format!("roundtrip:csi:indexer-panic:{}", p.sig), format!("Indexer panicked on a sorted stream at ({ms},{d}): {}", p.message));
+                            continue;
+                        }
+                    }
+                } else {
+                    let nrefs = *rng.pick(&[0usize, 1, 2, 5]);
+                    let fixed = rng.bool();
+                    let h = if with_header { Some(rt::arb_header(&mut rng, nrefs, false)) } else { None };
+                    (rt::arb_binned(&mut rng, ms, d, h, nrefs, fixed), format!("arb|refs={nrefs}|{ms},{d}|h={with_header}|fixed={fixed}"))
+                };
+                let file = if j % 8 == 0 { Some(scratch("x.csi")) } else { None };
+                let back = rt::rt_csi(&ix, file.as_deref());
+                let explain: &dyn Fn(&csi::Index, &csi::Index) -> bool = &rt::csi_loffset_diff_is_ancestor_minimum;
+                if let Some(jd) = rt::judge_binning("csi", src, &ix, back, &mut rng, o, Some(explain)) {
+                    evals += 1;
+                    o.fps.push(rt::fp(kind, src, &shape, &format!("{}|{}", jd.equal, file.is_some())));
+                }
+            }
+        }
+        ("gzi", "arbitrary") => {
+            for j in 0..RT_BATCH {
+                let ix = rt::arb_gzi(&mut rng);
+                let file = if j % 8 == 0 { Some(scratch("x.gzi")) } else { None };
+                let back = rt::rt_gzi(&ix, file.as_deref());
+                rt::judge_gzi(&ix, back, &mut rng, o);
+                evals += 1;
+                o.fps.push(rt::fp(kind, src, &format!("{}", ix.as_ref().len().min(3)), &format!("{}", file.is_some())));
+            }
+        }
+        ("fai", "arbitrary") => {
+            for j in 0..RT_BATCH {
+                let utf8 = j % 3 != 0;
+                let ix = rt::arb_fai(&mut rng, utf8);
+                let file = if j % 8 == 0 { Some(scratch("x.fai")) } else { None };
+                let back = rt::rt_fai(&ix, file.as_deref());
+                rt::judge_fai(src, &ix, back, o);
+                evals += 1;
+                o.fps.push(rt::fp(kind, src, &format!("{}|{utf8}", ix.as_ref().len().min(3)), &format!("{}", file.is_some())));
+            }
+        }
+        ("crai", "arbitrary") => {
+            for j in 0..RT_BATCH {
+                let ix = rt::arb_crai(&mut rng);
+                let file = if j % 8 == 0 { Some(scratch("x.crai")) } else { None };
+                let back = rt::rt_crai(&ix, file.as_deref());
+                rt::judge_crai(src, &ix, back, o);
+                evals += 1;
+                o.fps.push(rt::fp(kind, src, &format!("{}", ix.len().min(3)), &format!("{}", file.is_some())));
+            }
+        }
+        (_, "fs-index") => {
+            for j in 0..3 {
+                evals += run_fs_index(ctx, idx, kind, j, &mut rng, o);
+            }
+        }
+        _ => unreachable!(),
+    }
+    o.fps.sort_unstable();
+    o.fps.dedup();
+    o.evaluations = evals.max(1);
+    o.count(&format!("roundtrips[{kind}:{src}]"), evals);
+}
+
+/// One generated file -> `*::fs::index` -> `*::fs::write` -> `*::fs::read`.
+fn run_fs_index(ctx: &Ctx, idx: u64, kind: &str, j: usize, rng: &mut Rng, o: &mut CaseOut) -> u64 {
+    let p = |ext: &str| ctx.work.join(format!("c17-{idx}-{j}.{ext}"));
+    let fail = |o: &mut CaseOut, what: &str, e: String| o.count(&format!("fs_index_source_failures[{what}:{}]", guard::normalise_message(&e)), 1);
+    match kind {
+        "bai" => {
+            let set = files::small_aln_set(rng);
+            let path = p("bam");
+            if let Err(e) = genfiles::write_bam(&path, &set) {
+                fail(o, "write_bam", e.to_string());
+                return 0;
+            }
+            match guard::catch(|| bam::fs::index(&path)) {
+                Ok(Ok(ix)) => {
+                    let back = rt::rt_bai(&ix, Some(&p("bai")));
+                    if rt::judge_binning("bai", "fs-index", &ix, back, rng, o, None).is_some() {
+                        o.fps.push(rt::fp(kind, "fs-index", &format!("{}|{}", set.refs.len(), set.recs.len() / 10), ""));
+                        return 1;
+                    }
+                }
+                Ok(Err(e)) => fail(o, "bam::fs::index", e.to_string()),
+                Err(pn) => o.violation(format!("roundtrip:bai:fs-index-panic:{}", pn.sig), format!("bam::fs::index panicked on a sorted BAM: {}", pn.message)),
+            }
+        }
+        "csi" => {
+            let set = files::small_var_set(rng);
+            let path = p("bcf");
+            if let Err(e) = genfiles::write_bcf(&path, &set) {
+                fail(o, "write_bcf", e.to_string());
+                return 0;
+            }
+            match guard::catch(|| bcf::fs::index(&path)) {
+                Ok(Ok(ix)) => {
+                    let back = rt::rt_csi(&ix, Some(&p("csi")));
+                    let explain: &dyn Fn(&csi::Index, &csi::Index) -> bool = &rt::csi_loffset_diff_is_ancestor_minimum;
+                    if rt::judge_binning("csi", "fs-index", &ix, back, rng, o, Some(explain)).is_some() {
+                        o.fps.push(rt::fp(kind, "fs-index", &format!("{}|{}", set.contigs.len(), set.recs.len() / 10), ""));
+                        return 1;
+                    }
+                }
+                Ok(Err(e)) => fail(o, "bcf::fs::index", e.to_string()),
+                Err(pn) => o.violation(format!("roundtrip:csi:fs-index-panic:{}", pn.sig), format!("bcf::fs::index panicked: {}", pn.message)),
+            }
+        }
+        "tabix" => {
+            let set = files::small_var_set(rng);
+            let path = p("vcf.gz");
+            if let Err(e) = genfiles::write_vcf_gz(&path, &set) {
+                fail(o, "write_vcf_gz", e.to_string());
+                return 0;
+            }
+            match guard::catch(|| vcf::fs::index(&path)) {
+                Ok(Ok(ix)) => {
+                    let back = rt::rt_tabix(&ix, Some(&p("tbi")));
+                    if rt::judge_binning("tabix", "fs-index", &ix, back, rng, o, None).is_some() {
+                        o.fps.push(rt::fp(kind, "fs-index", &format!("{}|{}", set.contigs.len(), set.recs.len() / 10), ""));
+                        return 1;
+                    }
+                }
+                Ok(Err(e)) => fail(o, "vcf::fs::index", e.to_string()),
+                Err(pn) => o.violation(format!("roundtrip:tabix:fs-index-panic:{}", pn.sig), format!("vcf::fs::index panicked: {}", pn.message)),
+            }
+        }
+        "fai" => {
+            let n = rng.urange(1, 6);
+            let utf8 = j != 0;
+            let names: Vec<Vec<u8>> = (0..n)
+                .map(|i| {
+                    let mut nm = rt::arb_name(rng, b"\t\n\x0b\x0c\r >");
+                    if utf8 {
+                        nm = String::from_utf8_lossy(&nm).replace('\u{fffd}', "é").into_bytes();
+                        nm.retain(|b| !b" \t\n\r\x0c".contains(b));
+                    }
+                    nm.extend_from_slice(format!("_{i}").as_bytes());
+                    nm
+                })
+                .collect();
+            let path = p("fa");
+            if let Err(e) = files::write_fasta(&path, rng, &names) {
+                fail(o, "write_fasta", e.to_string());
+                return 0;
+            }
+            match guard::catch(|| fasta::fs::index(&path)) {
+                Ok(Ok(ix)) => {
+                    // the index must name the sequences as written (first word of the definition line)
+                    let got: Vec<Vec<u8>> = ix.as_ref().iter().map(|r| r.name().to_vec()).collect();
+                    if got != names {
+                        o.count("fasta_index_names_differ_from_written_names(observation, C11)", 1);
+                    }
+                    let back = rt::rt_fai(&ix, Some(&p("fai")));
+                    rt::judge_fai("fs-index", &ix, back, o);
+                    o.fps.push(rt::fp(kind, "fs-index", &format!("{n}|{utf8}"), ""));
+                    return 1;
+                }
+                Ok(Err(e)) => fail(o, "fasta::fs::index", e.to_string()),
+                Err(pn) => o.violation(format!("roundtrip:fai:fs-index-panic:{}", pn.sig), format!("fasta::fs::index panicked: {}", pn.message)),
+            }
+        }
+        "crai" => {
+            let path = p("cram");
+            match guard::catch(|| files::write_cram(&path, rng)) {
+                Ok(Ok(_)) => {}
+                Ok(Err(e)) => {
+                    fail(o, "write_cram", e.to_string());
+                    return 0;
+                }
+                Err(pn) => {
+                    fail(o, "write_cram-panic(C07)", pn.sig);
+                    return 0;
+                }
+            }
+            match guard::catch(|| cram::fs::index(&path)) {
+                Ok(Ok(ix)) => {
+                    let back = rt::rt_crai(&ix, Some(&p("crai")));
+                    rt::judge_crai("fs-index", &ix, back, o);
+                    o.fps.push(rt::fp(kind, "fs-index", &format!("{}", ix.len().min(4)), ""));
+                    o.max("max_crai_records_from_fs_index", ix.len() as u64);
+                    return 1;
+                }
+                Ok(Err(e)) => fail(o, "cram::fs::index", e.to_string()),
+                // cram::fs::index panics are C19's business
+                Err(pn) => fail(o, "cram::fs::index-panic(C19)", pn.sig),
+            }
+        }
+        "gzi" => {
+            // noodles has no gzi indexer; the (compressed, uncompressed) block offsets of a file written by the
+            // noodles BGZF writer are taken from the independent member walker (entries for every block but the first,
+            // as bgzip -i writes them).
+            let mut w = noodles_bgzf::io::Writer::new(Vec::new());
+            use std::io::Write;
+            for _ in 0..rng.urange(1, 12) {
+                let nbytes = rng.urange(1, 70000);
+                let chunk = rng.bytes(nbytes);
+                let _ = w.write_all(&chunk);
+                if rng.chance(1, 3) {
+                    let _ = w.flush();
+                }
+            }
+            let Ok(buf) = w.finish() else { return 0 };
+            let Ok(walk) = vcore::bgzf::walk(&buf) else {
+                fail(o, "bgzf-walk", "walker rejected".into());
+                return 0;
+            };
+            let mut pairs = Vec::new();
+            let mut u = 0u64;
+            for m in &walk.members {
+                if m.offset != 0 {
+                    pairs.push((m.offset as u64, u));
+                }
+                u += m.data.len() as u64;
+            }
+            let ix = noodles_bgzf::gzi::Index::from(pairs);
+            let back = rt::rt_gzi(&ix, Some(&p("gzi")));
+            rt::judge_gzi(&ix, back, rng, o);
+            o.fps.push(rt::fp(kind, "fs-index", &format!("{}", ix.as_ref().len().min(4)), ""));
+            return 1;
+        }
+        _ => unreachable!(),
+    }
+    0
+}
+
+fn run_witness(name: &str, o: &mut CaseOut) {
+    let mut rng = Rng::new(1, 0x17D, 0);
+    match name {
+        // Two records on one reference: a long record A first, a short record B inside A's range second.
+        //  * (14,5): A = [1, 20000] -> bin 585 (128 kb level) at 100..200, B = [10, 20] -> leaf bin 4681 at 200..300;
+        //    585 is the direct parent of 4681: in memory loffset(4681) = 200, the writer emits min(200, 100) = 100.
+        //  * (14,5): A = [1, 200000] -> bin 73 (1 Mb level); the parent 585 of 4681 does not exist, the writer's
+        //    ancestor walk stops there and loffset(4681) stays 200 (index equal after the round trip).
+        //  * (4,2): A = [1, 100] -> bin 1, B = [5, 6] -> leaf bin 9 (child of 1).
+        "csi-indexer-loffset-rewrite" => {
+            for (ms, d, a_end, b, label) in [(14u8, 5u8, 20_000usize, (10usize, 20usize), "direct-parent"), (14, 5, 200_000, (10, 20), "parent-chain-broken"), (4, 2, 100, (5, 6), "direct-parent-small")] {
+                let st = rt::Stream { recs: vec![(0, 1, a_end, true, (100, 200)), (0, b.0, b.1, true, (200, 300))], unplaced: vec![], nrefs: 1, shape: label.into() };
+                match rt::drive::<BinnedIndex>(&st, ms, d, None) {
+                    Ok(ix) => {
+                        let back = rt::rt_csi(&ix, None);
+                        let explain: &dyn Fn(&csi::Index, &csi::Index) -> bool = &rt::csi_loffset_diff_is_ancestor_minimum;
+                        rt::judge_binning("csi", "indexer", &ix, back, &mut rng, o, Some(explain));
+                        o.fps.push(rt::fp("csi", "witness", label, ""));
+                    }
+                    Err(e) => o.inconclusive.push(format!("witness {name}: indexer refused the stream: {e}")),
+                }
+            }
+        }
+        "fai-non-utf8-name" => {
+            let ix = fasta::fai::Index::from(vec![fasta::fai::Record::new(
+                b"sq\xff0".to_vec(),
+                8,
+                6,
+                std::num::NonZero::new(4).unwrap(),
+                std::num::NonZero::new(5).unwrap(),
+            )]);
+            let back = rt::rt_fai(&ix, None);
+            rt::judge_fai("arbitrary", &ix, back, o);
+            o.fps.push(rt::fp("fai", "witness", "", ""));
+        }
+        "crai-two-records" => {
+            let ix: cram::crai::Index = vec![
+                cram::crai::Record::new(Some(0), noodles_core::Position::new(10), 100, 26, 200, 300),
+                cram::crai::Record::new(Some(0), noodles_core::Position::new(150), 80, 26, 500, 280),
+            ];
+            let back = rt::rt_crai(&ix, None);
+            rt::judge_crai("arbitrary", &ix, back, o);
+            o.fps.push(rt::fp("crai", "witness", "", ""));
+        }
+        _ => unreachable!(),
+    }
+}
+
+fn run_case(ctx: &Ctx, idx: u64, c: &Case) -> CaseOut {
+    let mut o = CaseOut::new();
+    match c {
+        Case::BinExh { ms, d, lo, hi } => binning::run_exhaustive(*ms, *d, *lo, *hi, &mut o),
+        Case::BinSample { ms, d, k } => {
+            let regions = if binning::bin_count(*d) > 100_000 { 60 } else { 150 };
+            binning::run_sampled(*ms, *d, ctx.seed.wrapping_mul(1000).wrapping_add(*k), regions, 48, &mut o)
+        }
+        Case::ChunkExh { block } => chunks::run_exhaustive(*block, &mut o),
+        Case::ChunkRand { k } => chunks::run_random(ctx.seed.wrapping_mul(1000).wrapping_add(*k), 400, &mut o),
+        Case::QueryCover { k } => chunks::run_query_cover(ctx.seed.wrapping_mul(1000).wrapping_add(*k), 120, &mut o),
+        Case::Rt { kind, src, k } => run_rt(ctx, idx, kind, src, *k, &mut o),
+        Case::Witness { name } => run_witness(name, &mut o),
+    }
+    if idx % 37 == 0 {
+        o.sample = Some(case_json(c));
+    }
+    o
+}
 
 fn main() {
-    eprintln!("c17: not implemented");
-    std::process::exit(2);
+    let ctx = Ctx::from_args();
+    let ctx = vcore::cases::replay_request(&ctx).map(|r| r.1).unwrap_or(ctx);
+    let mut rep = Report::new(
+        "(a) binning: feature bin := key of the single bin Indexer::add_record creates; region bins := bins returned by \
+         ReferenceSequence::query on a reference sequence holding every bin id; decided for every region [rs,re] (and rs..) of the \
+         listed geometries against *all* features by the exact prefix-maximum argument M_b[re] >= rs <=> some feature of bin b \
+         intersects the region (b ranging over the bins not returned); sampled geometries: boundary-biased (region, 48 intersecting \
+         features) batches. (b) chunk lists: every list of <= 4 chunks with endpoints in 0..=6 x every min_offset (three monotone \
+         position maps), random lists of 5..300 chunks, and BinningIndex::query on hand-built linear/binned indexes; oracle = point \
+         sets. (c) round trips: indexes from Indexer<LinearIndex|BinnedIndex> / tabix Indexer over generated sorted streams, from \
+         */fs::index over generated BAM/BCF/VCF.gz/FASTA/CRAM files, and arbitrary valid ones via the public constructors; \
+         written+read in memory and through */fs::write+read; compared with == and by header/metadata/count/bins plus ~60-100 probe \
+         queries per reference. distinct = distinct (sub-check, geometry, interval level classes / list shape / index shape, outcome class).",
+    );
+    rep.assumptions.push("bin numbering (ids per level, bin intervals) follows CSIv1; chunks are half-open [start,end) ranges of virtual positions".into());
+    rep.assumptions.push("structurally valid index := what the file format can represent: bin ids below the geometry's bin count; BAI/tabix at (14,5); CSI loffset keys = bin keys; tabix names without NUL and as many names as reference sequences; FAI names = what a FASTA definition line yields (non-empty, no ASCII whitespace); CRAI reference ids <= i32::MAX".into());
+    rep.assumptions.push("positions: features in 1..=2^(min_shift+3*depth), regions end at 2^(min_shift+3*depth)-1, the largest position ReferenceSequence::query accepts".into());
+    let cases = gen_cases(&ctx);
+    let f = |i: u64| -> CaseOut { run_case(&ctx, i, &cases[i as usize]) };
+    run_cases(&ctx, &mut rep, cases.len() as u64, 300.0, &f, &|i| case_json(&cases[i as usize]));
+    if ctx.replay.is_none() {
+        // exhaustive geometries: complete iff every block returned and none was inconclusive
+        let mut ex = serde_json::Map::new();
+        for (ms, d) in exhaustive_geometries(&ctx) {
+            let n = binning::positions(ms, d) as u64;
+            let pairs = rep.counters.get(&format!("binning_exhaustive_pairs_decided[{ms},{d}]")).copied().unwrap_or(0);
+            let feats = rep.counters.get(&format!("binning_exhaustive_features_indexed[{ms},{d}]")).copied().unwrap_or(0);
+            let starts = rep.counters.get(&format!("binning_exhaustive_region_starts[{ms},{d}]")).copied().unwrap_or(0);
+            let complete = feats == n * (n + 1) / 2 && pairs > 0 && starts == n;
+            ex.insert(format!("({ms},{d})"), json!({"positions": n, "features_indexed": feats, "pairs_decided": pairs, "exhaustive": complete}));
+            if !complete {
+                rep.floors_unmet.push(format!("geometry ({ms},{d}) was not enumerated completely"));
+            }
+        }
+        rep.extra.insert("binning_geometries".into(), Value::Object(ex));
+        let q = rep.counters.get("binning_exhaustive_regions_queried").copied().unwrap_or(0);
+        rep.floor("binning_exhaustive_regions_queried", q, 10_000);
+        let ce = rep.counters.get("chunk_lists_exhaustive_evaluations").copied().unwrap_or(0);
+        rep.floor("chunk_lists_exhaustive_evaluations", ce, 1_000_000);
+        for kind in ["bai", "csi", "tabix", "gzi", "fai", "crai"] {
+            let n: u64 = rep.counters.iter().filter(|(k, _)| k.starts_with(&format!("roundtrips[{kind}:"))).map(|(_, v)| *v).sum();
+            rep.floor(&format!("roundtrips[{kind}]"), n, 20);
+        }
+    }
+    rep.finish(&ctx);
 }
